@@ -433,7 +433,7 @@ pub fn strategy(g: &GenCfg) -> BoxedStrategy<Case> {
             }
             actors.push(Actor { ctx: pctx, role: 0, ops: polls });
             actors.extend(arm_actors);
-            Case { fam: "cqueue".into(), workers, pool, feat, cfg: vec![0], actors, sched }
+            Case { fam: "cqueue".into(), workers, pool, feat, cfg: vec![0], actors, sched, weak: 0 }
         });
     // ---- select! ----
     let g4 = g2.clone();
@@ -442,7 +442,7 @@ pub fn strategy(g: &GenCfg) -> BoxedStrategy<Case> {
         for (ctx, dl) in feeds {
             actors.push(Actor { ctx, role: 2, ops: vec![Op(FEED, dl, 0)] });
         }
-        Case { fam: "cqueue".into(), workers, pool, feat, cfg: vec![1], actors, sched }
+        Case { fam: "cqueue".into(), workers, pool, feat, cfg: vec![1], actors, sched, weak: 0 }
     });
     prop_oneof![3 => api, 1 => sel].boxed()
 }
